@@ -92,9 +92,42 @@ func c16NestedOpen(w *core.Worker, i int) {
 	}
 }
 
+// c16LoopLosesItsCursor: the body of a WHILE IN loop closes or disposes the loop's cursor (directly, in a nested block, in a called
+// function) while rows are left. Asking a closed or undeclared cursor for its next row is an error: the loop ends there, it never
+// goes on handing out rows of the snapshot.
+func c16LoopLosesItsCursor(w *core.Worker, i int) {
+	r := w.Rng(i, "loop-loses")
+	core.WriteFiles(w.Work, map[string]string{"g.csv": "id,grp\n1,1\n2,2\n3,1\n4,2\n5,2\n6,3\n"})
+	for k := 0; k < 6; k++ {
+		at := r.Range(1, 4)
+		act := []string{"DISPOSE CURSOR cur;", "CLOSE cur;", "CLOSE cur; DISPOSE CURSOR cur;"}[r.Intn(3)]
+		how := []string{"IF @n = %d THEN %s END IF;", "IF @n = %d THEN IF TRUE THEN %s END IF; END IF;", "IF @n = %d THEN VAR @r := drop_it(); END IF; -- %s", "CASE WHEN @n = %d THEN %s END CASE;"}[r.Intn(4)]
+		prog := "DECLARE log VIEW (val); DECLARE cur CURSOR FOR SELECT id FROM g ORDER BY id; DECLARE drop_it FUNCTION () AS BEGIN " + act + " RETURN 0; END; OPEN cur; VAR @a; VAR @n := 0;\nWHILE @a IN cur DO\n@n := @n + 1; INSERT INTO log VALUES (@a);\n" + fmt.Sprintf(how, at, act) + "\nEND WHILE;"
+		s, err := core.NewSess(core.SessOpts{Dir: w.Work, Quiet: true})
+		if err != nil {
+			w.Inconclusive(err.Error())
+			return
+		}
+		res := s.Exec(prog)
+		seen := s.Exec("SELECT val FROM log;")
+		s.Close()
+		n := -1
+		if seen.Err == nil && len(seen.Views) == 1 {
+			n = len(seen.Views[0].Rows)
+		}
+		if res.Err == nil || n != at {
+			w.Violation("while-in:cursor-lost-in-the-body", fmt.Sprintf("the body %s the cursor in iteration %d of 6: the loop visited %d rows and ended with error %v (expected: an error in iteration %d)\n%s", strings.ToLower(strings.Fields(act)[0])+"s", at, n, res.Err, at+1, prog), c16Replay{History: []string{prog}, Detail: fmt.Sprint(res.Err)})
+		}
+		w.Count("loops_whose_body_loses_the_cursor", 1)
+	}
+}
+
 func c16Case(w *core.Worker, i int) {
 	if i%40 == 5 {
 		c16NestedOpen(w, i)
+	}
+	if i%40 == 25 {
+		c16LoopLosesItsCursor(w, i)
 	}
 	r := w.Rng(i, "")
 	n := []int{0, 1, 2, 7, 7, 12, 300}[r.Intn(7)]
